@@ -272,6 +272,9 @@ def memberRuntime (members : List Node) : List RT :=
     | .mk .tsCtorSig _ _ => rtInsert (some "Function") acc
     | _ => rtInsert (some "Object") acc) []
 
+/-- an object-like type never yields an empty list (`type: []` would make Vue reject every value) -/
+def orObject (ts : List RT) : List RT := if ts.isEmpty then [some "Object"] else ts
+
 /-- `infer_runtime_type` -/
 def inferRuntime (fuel : Nat) (st : St) (ty : Node) : List RT × St :=
   match fuel with
@@ -287,7 +290,7 @@ def inferRuntime (fuel : Nat) (st : St) (ty : Node) : List RT × St :=
        else if k == "null" then [none] else if k == "bigint" then [some "BigInt"]
        else if k == "symbol" then [some "Symbol"]
        else if k == "any" || k == "unknown" then [some ANY_TYPE] else [none], st)
-    | .mk .tsTypeLit _ [.mk .list _ members] => (memberRuntime members, st)
+    | .mk .tsTypeLit _ [.mk .list _ members] => (orObject (memberRuntime members), st)
     | .mk .tsFnType _ _ => ([some "Function"], st)
     | .mk .tsCtorType _ _ => ([some "Function"], st)
     | .mk .tsArray _ _ => ([some "Array"], st)
@@ -303,7 +306,14 @@ def inferRuntime (fuel : Nat) (st : St) (ty : Node) : List RT × St :=
       | some aliased => inferRuntime fuel st aliased
       | none =>
         match lookupReg st.interfaces (n, b) with
-        | some (.mk .tsIface _ [_, _, _, .mk .tsIfaceBody _ [.mk .list _ members]]) => (memberRuntime members, st)
+        | some (.mk .tsIface _ [_, _, .mk .list _ extends_, .mk .tsIfaceBody _ [.mk .list _ members]]) =>
+          let (ts, st) := extends_.foldl (fun (acc : List RT × St) parent =>
+            match parent with
+            | .mk .tsExprWithTypeArgs _ [.mk .ident ias _, targs] =>
+              let (more, st) := inferRuntime fuel acc.2 (.mk .tsTypeRef [] [.mk .ident ias [], targs])
+              (rtExtend acc.1 more, st)
+            | _ => (rtInsert (some "Object") acc.1, acc.2)) (memberRuntime members, st)
+          (orObject ts, st)
         | some _ => ([], st)
         | none =>
           let ps := typeParamsList tparams
